@@ -1,4 +1,5 @@
 import Pds.Proofs.KernelTie.Clear
+import Pds.Proofs.KernelTie.ClearCms
 /-!
 # C19 — tie by translation: `clear` / `is_empty` as translated from the source are the model's
 (cuckoo, quotient and Bloom filter, reservoir sampler, HyperLogLog, count-min sketch; `is_empty` of the t-digest).  The C19
